@@ -1,7 +1,78 @@
-"""C08 - decided on the ParseArgs model; see parsecheck.CONFIG["C08"]."""
-from . import parsecheck
+"""C08 - decided on the ParseArgs model (parsecheck.CONFIG["C08"]) plus an implementation-only metamorphic stream."""
+import copy
+from .. import lib, scen, runner, declgen
+from . import common, parsecheck
+
+
+def names_below(node):
+    """long and short names declared anywhere below (and in) a command node"""
+    longs, shorts = set(), set()
+    def walk(nd):
+        for o in nd["opts"]:
+            if o["long"]: longs.add(o["long"])
+            if o["short"]: shorts.add(o["short"])
+        for s2 in nd["subs"]: walk(s2)
+    walk(node)
+    return longs, shorts
+
+
+def swap_stream(rep, rng, n):
+    """implementation only: `app FLAG cmd rest` and `app cmd FLAG rest` have the same outcome when FLAG is a flag of the parser that
+    the command (and everything below it) does not redeclare - errors, values, active chain, remaining arguments, set marks."""
+    pairs = []
+    prof = dict(parsecheck.CONFIG["C08"]["profile"], p_mid_attach=0.0, p_required=0.0, p_addoption=0.05)
+    for _ in range(n):
+        g = declgen.Gen(rng, prof)
+        sc = g.gen_scenario()
+        root = sc["meta"]
+        subs = [s2 for s2 in root["subs"] if s2["name"]]
+        flags_ = [o for o in root["opts"] if o["isbool"] and o["type"][0] != "func" and not o.get("ns") and (o["long"] or (o["short"] and len(o["short"].decode("utf-8", "replace")) == 1))]
+        if not subs or not flags_:
+            continue
+        s2 = rng.choice(subs)
+        o = rng.choice(flags_)
+        longs, shorts = names_below(s2)
+        if (o["long"] and o["long"] in longs) or (o["short"] and o["short"] in shorts):
+            continue
+        word = rng.choice([s2["name"]] + s2["aliases"])
+        if o["long"] and (not o["short"] or rng.random() < 0.5): tok = b"--" + o["long"]
+        elif o["short"]: tok = b"-" + o["short"]
+        else: continue
+        rest = []
+        for _k in range(rng.randint(0, 2)):
+            pool = [x for x in s2["opts"] if x["isbool"] and x["long"] and not x.get("ns")]
+            if pool: rest.append(b"--" + rng.choice(pool)["long"])
+        a = copy.deepcopy({k: v for k, v in sc.items() if k != "meta"})
+        b = copy.deepcopy(a)
+        a["ops"] = [{"op": "parse", "args": [tok, word] + rest}]
+        b["ops"] = [{"op": "parse", "args": [word, tok] + rest}]
+        pairs.append((a, b))
+    if not pairs:
+        return True
+    ga = runner.run_impl([p[0] for p in pairs])
+    gb = runner.run_impl([p[1] for p in pairs])
+    for (a, b), ra, rb in zip(pairs, ga, gb):
+        rep.count(("c08swap", tuple(a["ops"][0]["args"])), nontrivial=True)
+        if not ra["ops"] or not rb["ops"]:
+            continue
+        x, y = ra["ops"][0], rb["ops"][0]
+        if x.get("panic") or y.get("panic"):
+            continue
+        # after an error the state is the partial one reached when the failing token was met, and the returned arguments are the
+        # unparsed rest: both legitimately depend on the order; the error itself must be the same
+        keys = ["err"] + (["vals", "active", "set", "calls", "exec", "ret"] if x["err"] == "nil" and y["err"] == "nil" else ["exec"])
+        for k in keys:
+            if x.get(k) != y.get(k):
+                rep.violation("C08: %r and %r differ in %s (%s vs %s)" % (a["ops"][0]["args"], b["ops"][0]["args"], k, str(x.get(k))[:80], str(y.get(k))[:80]),
+                              {"kind": "property-oracle", "property": "C08", "what": "flag/command order changes %s" % k,
+                               "scenario": common.scenario_json(a), "other_args": [lib.l1(t) for t in b["ops"][0]["args"]], "impl_first": ra, "impl_second": rb})
+                return False
+        rep.cov["traces_validated_against_impl"] += 1
+    return True
 
 
 def run(rep, tier, rng, replay=None):
-    rep.cov["rule"] = parsecheck.rule_text("C08")
-    parsecheck.run_property(rep, rng, "C08", tier, replay)
+    rep.cov["rule"] = parsecheck.rule_text("C08") + ("; plus a metamorphic stream on the implementation: a flag of the parser placed before or after a "
+                                                     "command word (name or alias) that does not redeclare it gives the same outcome")
+    parsecheck.run_property(rep, rng, "C08", tier, replay,
+                            extra_streams=None if replay else [lambda rep, rng, tier: swap_stream(rep, rng, 300 if tier == "quick" else 8000)])
